@@ -342,7 +342,7 @@ class RemoveDuplicateVariableDeclarationsForExternalProcedures(Transformer):
         if not symbols:
             return None
         if len(symbols) < len(o.symbols):
-            return o._update(symbols=symbols)
+            o._update(symbols=symbols)
         return o
 
 
